@@ -93,7 +93,10 @@ def build_cond(c, V):
         inner = build_cond(c[2], V)
         return not_(inner) if c[1] == "not_" else ~inner
     if k == "forall":
-        return for_all(V[c[1]], build_cond(c[2], V))
+        univ = build_term(c[3], V) if len(c) > 3 else V[c[1]]
+        return for_all(univ, build_cond(c[2], V))
+    if k == "const":
+        return bool(c[1])
     raise ValueError(c)
 
 
